@@ -75,6 +75,24 @@ func withMode(rt *rapid.T, c *EWCase, mode string, d DT) *EWCase {
 			c.Mode = "reuseAv"
 		}
 	}
+	if c.Mode == "reuseAx" {
+		n := prod(c.A.Shape)
+		if n > 4 {
+			n = 4
+		}
+		if n < 2 || len(c.A.Codes) < n || (c.B != nil && len(c.B.Codes) < n) {
+			c.Mode = "reuseA"
+		} else {
+			c.A = Opnd{Shape: []int{n}, Codes: c.A.Codes[:n], L: Layout{Root: "rm", Steps: []LStep{{Op: "pick", Axis: 1, Size: n, Idx: 0}}}}
+			if c.B != nil {
+				bl := Layout{Root: "rm"}
+				if rapid.Bool().Draw(rt, "bstep") {
+					bl.Steps = []LStep{{Op: "slice", Lo: []int{0}, Hi: []int{rapid.IntRange(0, 1).Draw(rt, "bhi")}, Step: []int{2}}}
+				}
+				c.B = &Opnd{Shape: []int{n}, Codes: c.B.Codes[:n], L: bl}
+			}
+		}
+	}
 	// a whole-tensor view of an operand with gaps in its storage cannot be a reuse tensor: use compact operands
 	switch c.Mode {
 	case "reuseAv":
@@ -96,11 +114,14 @@ func withMode(rt *rapid.T, c *EWCase, mode string, d DT) *EWCase {
 			c.A.L = Layout{Root: "rm"}
 		}
 	}
+	if c.Mode == "reuseAx" && !(len(c.A.L.Steps) == 1 && c.A.L.Steps[0].Op == "pick" && c.A.L.Final == "") {
+		c.Mode = "reuseA"
+	}
 	return c
 }
 
 var c07DTsQuick = []DT{dtInt8, dtInt32, dtUint16, dtUint64, dtF32, dtF64, dtC128}
-var ewModes = []string{"safe", "unsafe", "reuse", "reuseA", "reuseB", "reuseAv", "reuseBv", "incr"}
+var ewModes = []string{"safe", "unsafe", "reuse", "reuseA", "reuseB", "reuseAv", "reuseBv", "reuseAx", "incr"}
 
 func c07DTs() []DT {
 	if thorough() {
